@@ -299,11 +299,29 @@ def run_map(c):
 
 
 def run_call(c):
-    from lcm.functools import allow_args, allow_only_kwargs
+    from lcm.functools import all_as_args, all_as_kwargs, allow_args, allow_only_kwargs, convert_kwargs_to_args
 
     out = dict(c)
     f = _mk_f(c["sig"])
     names = [p["name"] for p in c["sig"]]
+    if c["wrapper"] in ("all_as_kwargs", "all_as_args", "convert_kwargs_to_args"):
+        # helpers: the value bound to each name, encoded like the test function (sum 10^position * value)
+        args = tuple(range(1, c["call"]["nargs"] + 1))
+        kwargs = {n: 4 + names.index(n) + 1 for n in c["call"]["kw"]}
+        try:
+            if c["wrapper"] == "all_as_kwargs":
+                d = all_as_kwargs(args, kwargs, arg_names=names)
+                val = sum(10 ** names.index(k) * v for k, v in d.items()) if set(d) == set(names) else -2
+            elif c["wrapper"] == "all_as_args":
+                t = all_as_args(args, kwargs, arg_names=names)
+                val = sum(10 ** i * v for i, v in enumerate(t)) if len(t) == len(names) else -2
+            else:
+                t = convert_kwargs_to_args(kwargs, names)
+                val = sum(10 ** i * v for i, v in enumerate(list(args) + list(t))) if len(args) + len(t) == len(names) else -2
+            out["obs"] = {"error": False, "value": _toint(val), "cls": "", "msg": ""}
+        except (ValueError, TypeError) as e:
+            out["obs"] = {"error": True, "value": -1, "cls": type(e).__name__, "msg": str(e)[:200]}
+        return out
     w = allow_only_kwargs(f) if c["wrapper"] == "allow_only_kwargs" else allow_args(f)
     args = list(range(1, c["call"]["nargs"] + 1))
     kwargs = {n: (4 + names.index(n) + 1 if n in names else 0) for n in c["call"]["kw"]}
@@ -523,6 +541,12 @@ def _emax(values, layout, sizes, scale):
     if layout == "axes0":
         arr = jnp.asarray(np.array(values, dtype=np.float32).T)                     # (choices, states)
         return np.asarray(_calculate_emax_extreme_value_shocks(arr, choice_axes=(0,), choice_segments=None, params=params), dtype=np.float64)
+    if layout == "both":
+        # every group has 2k values: k rows of the leading axis (a segment) x 2 entries of a dense choice axis
+        rows = [g[2 * r: 2 * r + 2] for g in values for r in range(len(g) // 2)]
+        arr = jnp.asarray(np.array(rows, dtype=np.float32))                         # (rows, 2)
+        seg = {"segment_ids": jnp.asarray(np.repeat(np.arange(len(values)), [len(g) // 2 for g in values])), "num_segments": len(values)}
+        return np.asarray(_calculate_emax_extreme_value_shocks(arr, choice_axes=1, choice_segments=seg, params=params), dtype=np.float64)
     flat = jnp.asarray(np.array([x for g in values for x in g], dtype=np.float32))
     seg = {"segment_ids": jnp.asarray(np.repeat(np.arange(len(values)), sizes)), "num_segments": len(values)}
     return np.asarray(_calculate_emax_extreme_value_shocks(flat, choice_axes=None, choice_segments=seg, params=params), dtype=np.float64)
